@@ -211,6 +211,19 @@ func checkC05(c *Case, s *Stats) error {
 	m := newModel(c)
 	var t1, t2 *trie.SlimTrie
 	var b []byte
+	if len(c.Keys)%4 == 2 && c.Enc != "Dummy" {
+		// loads of the same bytes on separate instances at the same time (a process
+		// that opens several index files at start-up); a crash of the Go runtime
+		// (concurrent map access) is attributed to this case through the side file
+		noteCurrentCase(c)
+		pre, e := c.build()
+		if e != nil {
+			return viol("build", "NewSlimTrie rejected valid input: %v", e)
+		}
+		if err := concurrentLoads(c, pre, m, s); err != nil {
+			return err
+		}
+	}
 	err := guard("build/marshal/unmarshal", func() error {
 		var e error
 		t1, e = c.build()
